@@ -864,6 +864,13 @@ func (in *Interp) branch(cond *Term) bool {
 		in.assumeTerm(in.ctx.Not(cond))
 		return false
 	}
+	if os.Getenv("GOSYM_TRACE_BRANCH") != "" {
+		ts := cond.Debug(7)
+		if len(ts) > 1500 {
+			ts = ts[:1500] + "…"
+		}
+		fmt.Fprintf(os.Stderr, "BRANCH @ %s size=%d: %s\n", in.where(), cond.size, ts)
+	}
 	// A model of the current path condition witnesses one side without a query.
 	var rT, rF Result
 	if in.model != nil {
